@@ -217,6 +217,160 @@ func finalize(s *spec) *spec {
 	return s
 }
 
+// the opcode families whose members share helper declarations / processes: exactly one member must
+// emit them (unique[...] + OnlyOne in procbuilder.go / utils.go, or a hand-written "first opcode
+// present" loop as in op_r2o*.go, op_chc.go …).  Every non-empty subset is a different case.
+var shareFamilies = []struct {
+	name  string
+	ops   []string
+	pairs bool // too many members for all subsets: singles, pairs, the full set
+}{
+	{"out", []string{"r2o", "r2owa", "r2owaa"}, false},
+	{"in", []string{"i2r", "i2rw", "sicv2", "sicv3"}, false},
+	{"ram", []string{"r2m", "m2r", "r2mri", "m2rri"}, false},
+	{"chan", []string{"chc", "chw", "wrd", "wwr"}, false},
+	{"dynstack", []string{"push4ds", "pull4ds"}, false},
+	{"dyncall", []string{"callo4cs", "calla4cs", "ret4cs"}, false},
+	{"cmpflag", []string{"cmpr", "cmprlt", "cmpv", "jcmpl", "jcmpo", "jcmpa", "jcmprio", "jcmpria", "jncmpl", "jncmpo", "jncmpa", "jncmprio", "jncmpria"}, true},
+	{"soops", []string{"r2t", "t2r", "q2r", "r2q", "r2u", "u2r", "k2r"}, true},
+}
+
+func subsets(xs []string, pairsOnly bool) [][]string {
+	var out [][]string
+	if pairsOnly {
+		for i := range xs {
+			for j := i + 1; j < len(xs); j++ {
+				out = append(out, []string{xs[i], xs[j]})
+			}
+		}
+		if len(xs) > 2 {
+			out = append(out, append([]string{}, xs...))
+		}
+		return out
+	}
+	for mask := 1; mask < 1<<uint(len(xs)); mask++ {
+		var sub []string
+		for i, x := range xs {
+			if mask&(1<<uint(i)) != 0 {
+				sub = append(sub, x)
+			}
+		}
+		if len(sub) > 1 { // singles are the iso family
+			out = append(out, sub)
+		}
+	}
+	return out
+}
+
+func genShareFamilies(static []string) {
+	known := map[string]bool{}
+	for _, o := range static {
+		known[o] = true
+	}
+	for _, o := range dynamicOps {
+		known[o] = true
+	}
+	for _, fam := range shareFamilies {
+		var ops []string
+		for _, o := range fam.ops {
+			if known[o] {
+				ops = append(ops, o)
+			}
+		}
+		for _, sub := range subsets(ops, fam.pairs) {
+			modes := []string{"ha"}
+			if fam.name == "ram" {
+				modes = []string{"ha", "hy", "vn"}
+			}
+			for _, mode := range modes {
+				p, sos := procFor(append([]string{"rset", "j"}, sub...), mode, 0)
+				nio := []int{1}
+				if fam.name == "out" || fam.name == "in" {
+					nio = []int{1, 2}
+				}
+				for _, k := range nio {
+					q := p
+					if q.N > 0 {
+						q.N = k
+					}
+					if q.M > 0 {
+						q.M = k
+					}
+					emit(finalize(single(fmt.Sprintf("uniq:%s:%s.%s.%d", fam.name, strings.Join(sub, "+"), mode, k), 8, q, sos, "iverilog")))
+				}
+			}
+		}
+	}
+}
+
+// genPermuted: machines whose processor -> domain mapping is not the identity (what
+// `bondmachine -add-processor <domain>` produces: several processors of one domain, processors in
+// another order than the domains), with a shared object attached to every processor that has one of
+// the kind's opcodes; the domains differ in their sender / receiver capabilities.
+// vtextmem indexes its boxes by attach position in Write_verilog but by processor number in
+// GetExternalPortsWires: attached to processors that are not 0..k-1 it panics (index out of range).
+// Proposed known finding C18-vtextmem-box-index (docs/C18-known-findings.json); until it is listed the
+// family leaves those machines out.  Set to true once the entry is merged.
+const vtextmemNonPrefix = false
+
+func genPermuted(thorough bool) {
+	maps := [][]int{{1, 0}, {1, 1, 0}, {0, 0, 1}, {2, 0, 1}, {1, 2, 2}}
+	if !thorough {
+		maps = [][]int{{1, 0}, {1, 1, 0}, {2, 0, 1}}
+	}
+	for _, so := range soKinds {
+		sets := soOps(so)
+		kind := strings.SplitN(so, ":", 2)[0]
+		// domain 0: first variant (usually sender+receiver), domain 1: last variant (one side only),
+		// domain 2: no opcode of the kind at all
+		doms := [][]string{
+			append([]string{"rset", "j"}, sets[0]...),
+			append([]string{"rset", "inc"}, sets[len(sets)-1]...),
+			{"rset", "j", "inc"},
+		}
+		if len(sets) > 2 {
+			doms[0] = append([]string{"rset", "j"}, sets[1]...)   // sender only
+			doms[1] = append([]string{"rset", "inc"}, sets[2]...) // receiver only
+		}
+		for _, pm := range maps {
+			if kind == "vtextmem" && !vtextmemNonPrefix && pm[0] == 2 {
+				continue
+			}
+			s := &spec{Kind: fmt.Sprintf("perm:%s:%v", kind, pm), Rsize: 8, Flavor: "iverilog", Sos: []string{so}, ProcDom: pm}
+			for _, ops := range doms {
+				p, _ := procFor(ops, "ha", 0)
+				s.Procs = append(s.Procs, p)
+			}
+			for pi, d := range pm {
+				if d != 2 {
+					s.Links = append(s.Links, [2]int{pi, 0})
+				}
+			}
+			emit(finalize(s))
+		}
+	}
+	// IO ports follow the domain too: processors of different N / M in permuted order, bonded
+	for _, pm := range [][]int{{1, 0}, {1, 1, 0}} {
+		s := &spec{Kind: fmt.Sprintf("perm:io:%v", pm), Rsize: 8, Flavor: "iverilog", ProcDom: pm}
+		p0, _ := procFor([]string{"rset", "j", "i2r", "r2o"}, "ha", 0)
+		p0.N, p0.M = 2, 1
+		p1, _ := procFor([]string{"inc", "j", "r2owa"}, "ha", 0)
+		s.Procs = []procSpec{p0, p1}
+		for pi, d := range pm {
+			n, m := s.Procs[d].N, s.Procs[d].M
+			for k := 0; k < n; k++ {
+				s.Bonds = append(s.Bonds, [2]string{fmt.Sprintf("p%di%d", pi, k), fmt.Sprintf("i%d", s.Inputs)})
+				s.Inputs++
+			}
+			for k := 0; k < m; k++ {
+				s.Bonds = append(s.Bonds, [2]string{fmt.Sprintf("o%d", s.Outputs), fmt.Sprintf("p%do%d", pi, k)})
+				s.Outputs++
+			}
+		}
+		emit(finalize(s))
+	}
+}
+
 func pickN(r *common.Rng, xs []string, k int) []string {
 	ys := append([]string{}, xs...)
 	for i := len(ys) - 1; i > 0; i-- {
@@ -268,6 +422,10 @@ func gen(thorough bool) {
 			}
 		}
 	}
+	// (4b) every subset of the opcode families that share helper declarations
+	genShareFamilies(static)
+	// (4c) processor -> domain mappings that are not the identity
+	genPermuted(thorough)
 	// (5) ports without IO opcodes (the CLIs let the user choose N and M freely)
 	{
 		p := procSpec{R: 2, N: 2, M: 0, O: 4, Mode: "ha", Ops: []string{"inc", "j"}}
@@ -354,5 +512,36 @@ func gen(thorough bool) {
 			s.HwOpt = []string{[]string{"onlydestregs", "onlysrcregs"}[r.Intn(2)]}
 		}
 		emit(finalize(s))
+		if np > 1 && r.Chance(1, 3) {
+			// the same domains, processors in reversed order (links and bonds renumbered with them)
+			t := *s
+			t.Kind = "mixperm"
+			t.ProcDom = nil
+			for pi := 0; pi < np; pi++ {
+				t.ProcDom = append(t.ProcDom, np-1-pi)
+			}
+			t.Links = nil
+			for _, l := range s.Links {
+				t.Links = append(t.Links, [2]int{np - 1 - l[0], l[1]})
+			}
+			t.Bonds, t.Inputs, t.Outputs = nil, 0, 0
+			for pi, d := range t.ProcDom {
+				for k := 0; k < s.Procs[d].N; k++ {
+					t.Bonds = append(t.Bonds, [2]string{fmt.Sprintf("p%di%d", pi, k), fmt.Sprintf("i%d", t.Inputs)})
+					t.Inputs++
+				}
+				for k := 0; k < s.Procs[d].M; k++ {
+					t.Bonds = append(t.Bonds, [2]string{fmt.Sprintf("o%d", t.Outputs), fmt.Sprintf("p%do%d", pi, k)})
+					t.Outputs++
+				}
+			}
+			t.Sos = append([]string{}, s.Sos...)
+			for i, so := range t.Sos {
+				if strings.HasPrefix(so, "vtextmem") {
+					t.Sos[i] = "vtextmem:@"
+				}
+			}
+			emit(finalize(&t))
+		}
 	}
 }
